@@ -1,7 +1,98 @@
-(* C19 — seed-compressed objects expand to what full encryption produces.  Pinned statements only. *)
-From PV Require Import Base.MachineInt Model.Znx Model.Limbs Model.EncModel.
+(* C19 — seed-compressed objects expand to exactly what full encryption would produce.  Pinned statements only.
+
+   `enc_sk_compressed` / `decompress_glwe` / `enc_sk` transcribe glwe_encrypt_sk_internal(compressed = true), decompress_glwe and
+   the standard routine (Model/EncModel.v); `gglwe_compressed_encrypt`, `ggsw_compressed_encrypt`, `decompress_cell` transcribe the
+   loop nests, seed slots and per-cell decompression of the gadget objects (Model/C19Gadget.v).  `us` is the raw u64 stream of a
+   mask source, `stream_of seed` the ChaCha8 stream keyed by a stored seed (any function), `parent` the stream of the root seed,
+   `errs i` the i-th block of the shared sequential error stream.  All sizes, ranks, dnum/dsize, radices are universally quantified. *)
+From PV Require Import Base.MachineInt Model.Znx Model.Limbs Model.Flat Model.DftAbs Model.EncModel Model.C19Gadget
+  Proofs.C19Gadget.
 Open Scope Z_scope.
 
-Theorem C19_stub : forall b n size rank body us, decompress_glwe b n size rank body us = body :: glwe_mask b n size rank us.
-Proof. reflexivity. Qed.
-Print Assumptions C19_stub.
+Theorem C19_decompress_glwe_eq_standard :
+  forall (wb b : Z) (n size rank : nat) (nk : Z) (pt : option (ccol * nat)) (sk : list poly) (us : nat -> Z) (e : poly) (body : ccol),
+  enc_sk_compressed wb b n size rank nk pt sk us e = Some body ->
+  enc_sk wb b n size rank nk pt sk us e = Some (decompress_glwe b n size rank body us).
+Proof. exact decompress_glwe_eq_standard. Qed.
+Print Assumptions C19_decompress_glwe_eq_standard.
+
+Theorem C19_standard_eq_decompress_glwe :
+  forall (wb b : Z) (n size rank : nat) (nk : Z) (pt : option (ccol * nat)) (sk : list poly) (us : nat -> Z) (e : poly) (ct : list ccol),
+  enc_sk wb b n size rank nk pt sk us e = Some ct ->
+  exists body, enc_sk_compressed wb b n size rank nk pt sk us e = Some body /\ ct = decompress_glwe b n size rank body us.
+Proof. exact standard_eq_decompress_glwe. Qed.
+Print Assumptions C19_standard_eq_decompress_glwe.
+
+(* the mask is regenerated column by column in increasing order, limb-major, one u64 per coefficient *)
+Theorem C19_decompress_glwe_column_order :
+  forall (b : Z) (n size rank : nat) (body : ccol) (us : nat -> Z) (c k j : nat),
+  (c < rank)%nat -> (k < n)%nat -> (j < size)%nat ->
+  nthZ (coef (nth (S c) (decompress_glwe b n size rank body us) []) k) j = uniform_digit b (us (c * size * n + j * n + k)%nat).
+Proof. exact decompress_glwe_column. Qed.
+Print Assumptions C19_decompress_glwe_column_order.
+
+(* row / seed order of a GGLWE-shaped object: cell (row, col) sits at slot rank_in*row + col and holds the seed drawn at position
+   col*dnum + row of the root stream, together with the body encrypted with that seed's stream and the error block of that position *)
+Theorem C19_gglwe_seed_row_order :
+  forall (stream_of : list Z -> nat -> Z) (wb b : Z) (n size rin rout dnum dsize : nat) (nk : Z) (ms sk : list poly)
+         (parent : nat -> Z) (errs : nat -> poly) (row col : nat), (row < dnum)%nat -> (col < rin)%nat ->
+  let i := gglwe_draw_index dnum row col in
+  find_slot (gglwe_seed_slot rin row col) (gglwe_compressed_encrypt stream_of wb b n size rin rout dnum dsize nk ms sk parent errs)
+  = Some (drawn_seed parent i,
+          enc_sk_compressed wb b n size rout nk (Some (row_pt b n size dsize row (nth col ms []), O)) sk
+            (stream_of (drawn_seed parent i)) (errs i)).
+Proof. exact gglwe_store_cell. Qed.
+Print Assumptions C19_gglwe_seed_row_order.
+
+Theorem C19_decompress_gglwe_eq_standard :
+  forall (stream_of : list Z -> nat -> Z) (wb b : Z) (n size rin rout dnum dsize : nat) (nk : Z) (ms sk : list poly)
+         (parent : nat -> Z) (errs : nat -> poly) (row col : nat) (ct : list ccol),
+  (row < dnum)%nat -> (col < rin)%nat ->
+  decompress_cell stream_of b n size rout
+    (gglwe_compressed_encrypt stream_of wb b n size rin rout dnum dsize nk ms sk parent errs) (gglwe_seed_slot rin row col) = Some ct ->
+  let i := gglwe_draw_index dnum row col in
+  enc_sk wb b n size rout nk (Some (row_pt b n size dsize row (nth col ms []), O)) sk (stream_of (drawn_seed parent i)) (errs i) = Some ct.
+Proof. exact gglwe_decompress_cell_eq_standard. Qed.
+Print Assumptions C19_decompress_gglwe_eq_standard.
+
+Theorem C19_ggsw_seed_row_order :
+  forall (stream_of : list Z -> nat -> Z) (wb b : Z) (n size rank dnum dsize : nat) (nk : Z) (m : poly) (sk : list poly)
+         (parent : nat -> Z) (errs : nat -> poly) (row col : nat), (row < dnum)%nat -> (col < S rank)%nat ->
+  let i := ggsw_draw_index rank row col in
+  find_slot (ggsw_seed_slot rank row col) (ggsw_compressed_encrypt stream_of wb b n size rank dnum dsize nk m sk parent errs)
+  = Some (drawn_seed parent i,
+          enc_sk_compressed wb b n size rank nk (Some (row_pt b n size dsize row m, col)) sk (stream_of (drawn_seed parent i)) (errs i)).
+Proof. exact ggsw_store_cell. Qed.
+Print Assumptions C19_ggsw_seed_row_order.
+
+Theorem C19_decompress_ggsw_eq_standard :
+  forall (stream_of : list Z -> nat -> Z) (wb b : Z) (n size rank dnum dsize : nat) (nk : Z) (m : poly) (sk : list poly)
+         (parent : nat -> Z) (errs : nat -> poly) (row col : nat) (ct : list ccol),
+  (row < dnum)%nat -> (col < S rank)%nat ->
+  decompress_cell stream_of b n size rank
+    (ggsw_compressed_encrypt stream_of wb b n size rank dnum dsize nk m sk parent errs) (ggsw_seed_slot rank row col) = Some ct ->
+  let i := ggsw_draw_index rank row col in
+  enc_sk wb b n size rank nk (Some (row_pt b n size dsize row m, col)) sk (stream_of (drawn_seed parent i)) (errs i) = Some ct.
+Proof. exact ggsw_decompress_cell_eq_standard. Qed.
+Print Assumptions C19_decompress_ggsw_eq_standard.
+
+Theorem C19_decompress_decrypts_same :
+  forall (wb b pb : Z) (n size psize rank : nat) (nk : Z) (pt : option (ccol * nat)) (sk : list poly) (us : nat -> Z) (e : poly)
+         (body : ccol) (ct : list ccol),
+  enc_sk_compressed wb b n size rank nk pt sk us e = Some body ->
+  enc_sk wb b n size rank nk pt sk us e = Some ct ->
+  dec_glwe wb b pb n size psize sk (decompress_glwe b n size rank body us) = dec_glwe wb b pb n size psize sk ct.
+Proof. exact decompress_decrypts_same. Qed.
+Print Assumptions C19_decompress_decrypts_same.
+
+(* a concrete instance: rank_in = 2, dnum = 2, a toy keyed stream; every cell decompresses (the hypotheses of the cell theorems
+   are met) and cell (1, 0) carries the seed drawn second (position 0*dnum + 1) *)
+Example C19_gglwe_ex :
+  let stream_of := fun (seed : list Z) (i : nat) => nthZ seed 0 * 1000003 + Z.of_nat i * 7919 in
+  let parent := fun i : nat => Z.of_nat i * 31 + 5 in
+  let errs := fun i : nat => [Z.of_nat i; -1; 0; 2] in
+  let obj := gglwe_compressed_encrypt stream_of 64 7 4 3 2 1 2 1 11 [[1; 0; -1; 0]; [0; 1; 1; 0]] [[1; -1; 0; 1]] parent errs in
+  forallb (fun rc => match decompress_cell stream_of 7 4 3 1 obj (gglwe_seed_slot 2 (fst rc) (snd rc)) with Some _ => true | None => false end)
+          [(0, 0); (0, 1); (1, 0); (1, 1)]%nat = true
+  /\ (match find_slot (gglwe_seed_slot 2 1 0) obj with Some (seed, _) => seed | None => [] end) = drawn_seed parent 1.
+Proof. vm_compute. split; reflexivity. Qed.
